@@ -7,6 +7,9 @@
    explicit matchers (ECMAScript grammar, no multiline flag: ^ and $ match only at the ends of the searched
    range, which is exactly the current line).
 
+   Fix C17-F5: the lines of an object-stream dictionary behind its /Type /ObjStm line that fix-qdf does not write itself
+   (is_regenerated_ostream_line) are collected in ostream_kept and written back by writeOstream().
+
    Integers: qpdf_offset_t / size_t / int are Z here; the conversions QIntC::to_size etc. never fail on the
    values that reach them (all are non-negative by construction of the machine; see FixQdfProofs.v), the two
    places where the C++ can throw on data (std::stoi out of range, QPDFXRefEntry::getOffset on a type-2 entry)
@@ -37,6 +40,9 @@ Definition fqk_dict_end : list N := Eval vm_compute in (fq_bs ">>" ++ [10%N]).
 Definition fqk_W_open : list N := Eval vm_compute in (fq_bs "  /W [ 1 ").
 Definition fqk_W_close : list N := Eval vm_compute in (fq_bs " ]" ++ [10%N]).
 Definition fqk_slash_length : list N := Eval vm_compute in (fq_bs "/Length").
+Definition fqk_slash_length_sp : list N := Eval vm_compute in (fq_bs "/Length ").
+Definition fqk_slash_N_sp : list N := Eval vm_compute in (fq_bs "/N ").
+Definition fqk_slash_first_sp : list N := Eval vm_compute in (fq_bs "/First ").
 Definition fqk_slash_W : list N := Eval vm_compute in (fq_bs "/W").
 Definition fqk_slash_size : list N := Eval vm_compute in (fq_bs "/Size").
 Definition fqk_ignore_newline : list N := Eval vm_compute in (fq_bs "%QDF: ignore_newline" ++ [10%N]).
@@ -91,6 +97,16 @@ Definition fq_is_type_line (l ty : list N) : bool :=
   match fq_drop_lead l with
   | [] => false
   | l' => fq_eqb (fq_drop_trail l') ty
+  end.
+
+(* is_regenerated_ostream_line(l) (fix C17-F5): l is ">>\n", or l without leading spaces/tabs starts with "/Length ",
+   "/N " or "/First "; a line of spaces and tabs only is not regenerated *)
+Definition fq_starts (p s : list N) : bool := match fq_strip p s with Some _ => true | None => false end.
+Definition fq_is_regenerated (l : list N) : bool :=
+  if fq_eqb l fqk_dict_end then true else
+  match fq_drop_lead l with
+  | [] => false
+  | l' => fq_starts fqk_slash_length_sp l' || fq_starts fqk_slash_N_sp l' || fq_starts fqk_slash_first_sp l'
   end.
 
 (* \d+ greedy: (digits, rest); digits may be empty *)
@@ -191,40 +207,45 @@ Record fqs := mkfq {
   q_oidx : Z;
   q_oid : Z;
   q_oext : list N;                     (* ostream_extends *)
+  q_okept : list (list N);             (* ostream_kept (fix C17-F5): the lines appended to it, reversed *)
   q_out : list (list N)                (* everything written to `out`, reversed list of chunks *)
 }.
 
 Definition fq_init : fqs :=
-  mkfq Fq_top 0 0 0 0 [] 0 0 0 0%N 0%N 0 [] [] [] 0 0 [] [].
+  mkfq Fq_top 0 0 0 0 [] 0 0 0 0%N 0%N 0 [] [] [] 0 0 [] [] [].
 
 Definition fq_set_st (s : fqs) (v : fq_state) : fqs :=
   mkfq v (q_lineno s) (q_offset s) (q_last_offset s) (q_last_obj s) (q_xref s) (q_stream_start s) (q_stream_length s)
        (q_xref_offset s) (q_f1 s) (q_f2 s) (q_xref_size s) (q_ostream s) (q_ooffs s) (q_odisc s) (q_oidx s) (q_oid s)
-       (q_oext s) (q_out s).
+       (q_oext s) (q_okept s) (q_out s).
 Definition fq_set_pos (s : fqs) (lineno offset last_offset : Z) : fqs :=
   mkfq (q_st s) lineno offset last_offset (q_last_obj s) (q_xref s) (q_stream_start s) (q_stream_length s)
        (q_xref_offset s) (q_f1 s) (q_f2 s) (q_xref_size s) (q_ostream s) (q_ooffs s) (q_odisc s) (q_oidx s) (q_oid s)
-       (q_oext s) (q_out s).
+       (q_oext s) (q_okept s) (q_out s).
 Definition fq_set_offset (s : fqs) (v : Z) : fqs := fq_set_pos s (q_lineno s) v (q_last_offset s).
 Definition fq_set_obj (s : fqs) (last_obj : Z) (xref : list fq_xent) : fqs :=
   mkfq (q_st s) (q_lineno s) (q_offset s) (q_last_offset s) last_obj xref (q_stream_start s) (q_stream_length s)
        (q_xref_offset s) (q_f1 s) (q_f2 s) (q_xref_size s) (q_ostream s) (q_ooffs s) (q_odisc s) (q_oidx s) (q_oid s)
-       (q_oext s) (q_out s).
+       (q_oext s) (q_okept s) (q_out s).
 Definition fq_set_stream (s : fqs) (start len : Z) : fqs :=
   mkfq (q_st s) (q_lineno s) (q_offset s) (q_last_offset s) (q_last_obj s) (q_xref s) start len
        (q_xref_offset s) (q_f1 s) (q_f2 s) (q_xref_size s) (q_ostream s) (q_ooffs s) (q_odisc s) (q_oidx s) (q_oid s)
-       (q_oext s) (q_out s).
+       (q_oext s) (q_okept s) (q_out s).
 Definition fq_set_xr (s : fqs) (xref_offset : Z) (f1 f2 : N) (xref_size : Z) : fqs :=
   mkfq (q_st s) (q_lineno s) (q_offset s) (q_last_offset s) (q_last_obj s) (q_xref s) (q_stream_start s) (q_stream_length s)
        xref_offset f1 f2 xref_size (q_ostream s) (q_ooffs s) (q_odisc s) (q_oidx s) (q_oid s)
-       (q_oext s) (q_out s).
+       (q_oext s) (q_okept s) (q_out s).
 Definition fq_set_os (s : fqs) (ostream : list (list N)) (ooffs : list Z) (odisc : list (list N)) (oidx oid : Z) (oext : list N) : fqs :=
   mkfq (q_st s) (q_lineno s) (q_offset s) (q_last_offset s) (q_last_obj s) (q_xref s) (q_stream_start s) (q_stream_length s)
-       (q_xref_offset s) (q_f1 s) (q_f2 s) (q_xref_size s) ostream ooffs odisc oidx oid oext (q_out s).
+       (q_xref_offset s) (q_f1 s) (q_f2 s) (q_xref_size s) ostream ooffs odisc oidx oid oext (q_okept s) (q_out s).
+Definition fq_set_okept (s : fqs) (okept : list (list N)) : fqs :=
+  mkfq (q_st s) (q_lineno s) (q_offset s) (q_last_offset s) (q_last_obj s) (q_xref s) (q_stream_start s) (q_stream_length s)
+       (q_xref_offset s) (q_f1 s) (q_f2 s) (q_xref_size s) (q_ostream s) (q_ooffs s) (q_odisc s) (q_oidx s) (q_oid s)
+       (q_oext s) okept (q_out s).
 Definition fq_set_out (s : fqs) (out : list (list N)) : fqs :=
   mkfq (q_st s) (q_lineno s) (q_offset s) (q_last_offset s) (q_last_obj s) (q_xref s) (q_stream_start s) (q_stream_length s)
        (q_xref_offset s) (q_f1 s) (q_f2 s) (q_xref_size s) (q_ostream s) (q_ooffs s) (q_odisc s) (q_oidx s) (q_oid s)
-       (q_oext s) out.
+       (q_oext s) (q_okept s) out.
 
 (* out << chunk *)
 Definition fq_emit (s : fqs) (chunk : list N) : fqs := fq_set_out s (chunk :: q_out s).
@@ -268,6 +289,7 @@ Definition fq_write_ostream (s : fqs) : fq_res :=
         fqk_N_sp ++ fq_dec n ++ fqk_nl ++
         fqk_first_sp ++ fq_dec first' ++ fqk_nl ++
         (match q_oext s with [] => [] | e => fqk_extends_key ++ e ++ fqk_nl end) ++
+        concat (rev' (q_okept s)) ++
         fqk_dict_end in
       let offset_adjust' := offset_adjust + fq_len dict_data in
       (* out << dict_data << "stream\n" << offsets; then every saved line of the stream *)
@@ -276,7 +298,7 @@ Definition fq_write_ostream (s : fqs) : fq_res :=
       let s1 := fq_set_stream s (q_stream_start s) stream_length in
       let s2 := fq_set_offset s1 offset in
       let s3 := fq_set_out s2 out in
-      inl (fq_set_os s3 [] [] [] 0 0 [])
+      inl (fq_set_okept (fq_set_os s3 [] [] [] 0 0 []) [])
   end.
 
 (* the binary entries of the xref stream, in order *)
@@ -339,8 +361,12 @@ Definition fq_step (s0 : fqs) (line : list N) : fq_res :=
   | Fq_in_ostream_dict =>
       if fq_eqb line fqk_stream_nl then inl (fq_set_st s Fq_in_ostream_offsets)
       else
-        let ext := match fq_match_extends line with Some m => m | None => q_oext s end in
-        inl (fq_set_os s (q_ostream s) (q_ooffs s) (line :: q_odisc s) (q_oidx s) (q_oid s) ext)
+        match fq_match_extends line with
+        | Some m => inl (fq_set_os s (q_ostream s) (q_ooffs s) (line :: q_odisc s) (q_oidx s) (q_oid s) m)
+        | None =>
+            let s1 := fq_set_os s (q_ostream s) (q_ooffs s) (line :: q_odisc s) (q_oidx s) (q_oid s) (q_oext s) in
+            inl (if fq_is_regenerated line then s1 else fq_set_okept s1 (line :: q_okept s1))
+        end
   | Fq_in_ostream_offsets =>
       match fq_match_ostream_obj line with
       | Some d => match fq_check_obj_id s d with
